@@ -98,6 +98,7 @@ class World:
         self.current = None
         self.terminated = 0
         self.unwound = False
+        self.hung = False
         self.configuration = None
 
     def time(self):
@@ -112,10 +113,18 @@ class FakeTime:
         return self._w.time()
 
 
+class Hung(Exception):
+    """The master would block forever (e.g. ``recv`` on a pipe that can never signal end-of-file)."""
+
+
 class _Conn:
-    def __init__(self, world):
+    """One end of a pipe.  As with an OS pipe, the receiving end sees end-of-file only when EVERY copy of the sending
+    end is closed: the worker's copy is closed when the worker process ends, the master's own copy only when the
+    master closes it."""
+
+    def __init__(self, world, state=None):
         self.w = world
-        self.box = []
+        self.state = state if state is not None else {"box": [], "master_send_open": True, "send_end": None}
         self.broken = False
         self.garbage = False
         self.closed = False
@@ -124,15 +133,24 @@ class _Conn:
     def send(self, obj):
         if self.broken:
             raise BrokenPipeError("stub: broken pipe")
-        self.box.append(obj)
+        if self.closed:
+            raise OSError("stub: handle is closed")
+        self.state["box"].append(obj)
 
     # receiving end -------------------------------------------------------------------------------
     def recv(self):
-        if self.garbage:
+        if self.closed:
+            raise OSError("stub: handle is closed")
+        send_end = self.state["send_end"]
+        if send_end.garbage:
             raise pickle.UnpicklingError("stub: pickle data was truncated")
-        if not self.box:
+        if not self.state["box"]:
+            if not send_end.closed:
+                # the worker is gone, but the master itself still holds the sending end open: no end-of-file, ever
+                self.w.hung = True
+                raise Hung("stub: recv() blocks forever - the master still holds the sending end of the pipe open")
             raise EOFError("stub: worker closed the pipe without a result")
-        obj = self.box.pop(0)
+        obj = self.state["box"].pop(0)
         self.w.delivered.append(obj)
         return obj
 
@@ -195,8 +213,10 @@ class FakeMP:
         self._last_conn = None
 
     def Pipe(self, duplex=True):  # noqa: N802
-        c = _Conn(self._w)
-        return c, c
+        recv_end = _Conn(self._w)
+        send_end = _Conn(self._w, recv_end.state)
+        recv_end.state["send_end"] = send_end
+        return recv_end, send_end
 
     def Process(self, target=None, args=(), name=None):  # noqa: N802
         return _Process(self._w, target, args, name)
